@@ -50,6 +50,21 @@ type subject struct {
 	enums   int
 	q       *quietState
 	keptAll iter.Seq[uint]
+
+	// switches of the later engines (windows, big, reentrant); all off in the first four
+	shuffle   bool   // the order of the observers in verify / enumerate / add / remove is drawn per call
+	sparse    bool   // Contains is compared at the members, their neighbours, word and capacity edges and random values instead of at every value
+	estWords  int    // word count as far as the harness can tell without asking (coverage counters only)
+	firstEnum string // the enumeration that ran first in the last enumerate call
+	unobs     int    // mutating operations since the last observing call on this object
+}
+
+// observed is called by every observing call that is really made (not deferred).
+func (s *subject) observed(by string) {
+	if s.unobs >= 2 && s.shuffle {
+		s.c.Add("first_observer_after_unobserved_ops_"+by, 1)
+	}
+	s.unobs = 0
 }
 
 // quietState: while left > 0 the harness makes no observing call (Len, Contains,
@@ -57,7 +72,13 @@ type subject struct {
 // results are compared. Observation is not free of side effects in every
 // implementation (a lazily recomputed cardinality, say), so sequences in which
 // several operations pass unobserved are part of the quantifier.
-type quietState struct{ left int }
+//
+// strict: not even Cap is called inside the window (the coverage counters that
+// need a word count use the harness's own estimate meanwhile).
+type quietState struct {
+	left   int
+	strict bool
+}
 
 func (s *subject) deferred() bool {
 	if s.q != nil && s.q.left > 0 {
@@ -223,11 +244,21 @@ func (s *subject) capOf() (int, bool) {
 }
 
 func (s *subject) words() int {
+	if s.q != nil && s.q.left > 0 && s.q.strict {
+		return s.estWords
+	}
 	n, ok := s.capOf()
 	if !ok || n < 0 {
 		return 0
 	}
+	s.estWords = n / 64
 	return n / 64
+}
+
+func (s *subject) estAtLeast(words int) {
+	if words > s.estWords {
+		s.estWords = words
+	}
 }
 
 func (s *subject) rawContains(x uint) bool {
@@ -241,21 +272,24 @@ func (s *subject) rawContains(x uint) bool {
 	}
 }
 
+func (s *subject) rawLen() int {
+	switch s.k {
+	case kBits:
+		return s.sb.Len()
+	case kBitmap:
+		return s.bm.Len()
+	default:
+		return s.db.Len()
+	}
+}
+
 func (s *subject) lenOK(ctx string) bool {
 	if s.deferred() {
 		return true
 	}
 	var n int
-	if !s.guard("Len", func() {
-		switch s.k {
-		case kBits:
-			n = s.sb.Len()
-		case kBitmap:
-			n = s.bm.Len()
-		default:
-			n = s.db.Len()
-		}
-	}) {
+	s.observed("len")
+	if !s.guard("Len", func() { n = s.rawLen() }) {
 		return false
 	}
 	if n != len(s.m) {
@@ -288,7 +322,9 @@ func (s *subject) add(x uint) bool {
 		return false
 	}
 	s.muts++
+	s.unobs++
 	s.fresh = true
+	s.estAtLeast(int(x>>6) + 1)
 	if want {
 		s.m[x] = struct{}{}
 		s.cacheInsert(x)
@@ -313,6 +349,9 @@ func (s *subject) add(x uint) bool {
 	if got != want {
 		s.fail("add-result", "", "Add(%d) returned %v, membership changed: %v", x, got, want)
 		return false
+	}
+	if s.shuffle && s.c.Rng.Bool() {
+		return s.contains(x) && s.lenOK("add")
 	}
 	return s.lenOK("add") && s.contains(x)
 }
@@ -375,6 +414,7 @@ func (s *subject) remove(x uint) bool {
 		return false
 	}
 	s.muts++
+	s.unobs++
 	s.fresh = true
 	if want {
 		delete(s.m, x)
@@ -398,6 +438,9 @@ func (s *subject) remove(x uint) bool {
 		s.fail("remove-result", "", "Remove(%d) returned %v, membership changed: %v", x, got, want)
 		return false
 	}
+	if s.shuffle && s.c.Rng.Bool() {
+		return s.contains(x) && s.lenOK("remove")
+	}
 	return s.lenOK("remove") && s.contains(x)
 }
 
@@ -407,6 +450,7 @@ func (s *subject) contains(x uint) bool {
 	}
 	want := s.has(x)
 	var got bool
+	s.observed("contains")
 	if !s.guard("Contains", func() { got = s.rawContains(x) }) {
 		s.c.Logf("%s.Contains(%d) panicked", s.name, x)
 		return false
@@ -457,7 +501,9 @@ func (s *subject) grow(n uint) bool {
 		s.hi = n
 	}
 	s.muts++
+	s.unobs++
 	s.fresh = true
+	s.estAtLeast(int(n>>6) + 1)
 	after := s.words()
 	s.c.Logf("%s.Grow(%d): Cap %d -> %d", s.name, n, words*64, after*64)
 	if after > words {
@@ -485,6 +531,10 @@ func (s *subject) capCall() bool {
 
 // sweep compares Contains(x) with the model for every x in 0..hi+130.
 func (s *subject) sweep(ctx string) bool {
+	s.observed("contains")
+	if s.sparse {
+		return s.sweepSparse(ctx)
+	}
 	want := s.list()
 	lim := s.hi + 130
 	p := 0
@@ -504,6 +554,60 @@ func (s *subject) sweep(ctx string) bool {
 	}) {
 		return false
 	}
+	if found {
+		s.c.Logf("%s.Contains(%d) -> %v", s.name, bad, badGot)
+		s.fail("contains", ctx, "Contains(%d) returned %v, member: %v", bad, badGot, !badGot)
+		return false
+	}
+	return true
+}
+
+// sweepSparse is the Contains comparison for sets too large to ask about every value:
+// every member, both neighbours of every member, the edges of every word that holds a
+// member and of its neighbour words, the capacity edge, the powers of two and their
+// neighbours, and random values.
+func (s *subject) sweepSparse(ctx string) bool {
+	want := s.list()
+	words := uint(s.words())
+	if s.c.Failed() {
+		return false
+	}
+	rng := s.c.Rng
+	probes := make([]uint, 0, 7*len(want)+700)
+	for _, x := range want {
+		lo, hi := x&^63, x|63
+		probes = append(probes, x, x+1, lo, hi, hi+1)
+		if x > 0 {
+			probes = append(probes, x-1)
+		}
+		if lo > 0 {
+			probes = append(probes, lo-1)
+		}
+	}
+	for _, d := range []uint{0, 1, 63, 64, 65, 1023, 1024} {
+		probes = append(probes, words*64+d)
+		if words*64 > d {
+			probes = append(probes, words*64-d-1)
+		}
+	}
+	for k := uint(6); k < 26; k++ {
+		probes = append(probes, 1<<k-1, 1<<k, 1<<k+1)
+	}
+	for i := 0; i < 400; i++ {
+		probes = append(probes, uint(rng.Intn(int(s.hi)+130)))
+	}
+	bad, badGot, found := uint(0), false, false
+	if !s.guard("Contains", func() {
+		for _, x := range probes {
+			if g := s.rawContains(x); g != s.has(x) {
+				bad, badGot, found = x, g, true
+				return
+			}
+		}
+	}) {
+		return false
+	}
+	s.c.Add("sparse_contains_probes", int64(len(probes)))
 	if found {
 		s.c.Logf("%s.Contains(%d) -> %v", s.name, bad, badGot)
 		s.fail("contains", ctx, "Contains(%d) returned %v, member: %v", bad, badGot, !badGot)
@@ -568,11 +672,20 @@ func (s *subject) noteShape(want []uint) {
 	if want[0]>>6 >= 1 {
 		c.Add("enum_leading_empty_word", 1)
 	}
-	var cross, adj, skip int64
+	var cross, adj, skip, gap16 int64
+	if want[0]>>6 >= 16 {
+		gap16++
+	}
 	for i := 1; i < len(want); i++ {
 		a, b := want[i-1], want[i]
 		if a>>6 != b>>6 {
 			cross++
+			if b>>6 >= a>>6+16 {
+				gap16++
+				if b>>6 == a>>6+16 {
+					c.Add("enum_members_exactly_16_words_apart", 1)
+				}
+			}
 			if a&63 == 63 && b == a+1 {
 				adj++
 			}
@@ -590,6 +703,9 @@ func (s *subject) noteShape(want []uint) {
 	if skip > 0 {
 		c.Add("enum_skips_empty_word", skip)
 	}
+	if gap16 > 0 {
+		c.Add("enum_gap_of_16_or_more_empty_words", gap16)
+	}
 }
 
 // enumerate compares Iter (all kinds), Range (Bits, Bitmap) and All (Bits) with the sorted members.
@@ -603,11 +719,44 @@ func (s *subject) enumerate(ctx string) bool {
 		return false
 	}
 	c.Max("max_members_enumerated", int64(len(want)))
+	parts := [3]int{0, 1, 2}
+	n := 3
+	if s.k == kDsz {
+		n = 1
+	} else if s.k == kBitmap {
+		n = 2
+	}
+	if s.shuffle {
+		for i := n - 1; i > 0; i-- {
+			j := c.Rng.Intn(i + 1)
+			parts[i], parts[j] = parts[j], parts[i]
+		}
+	}
+	s.firstEnum = [...]string{"iter", "range", "all"}[parts[0]]
+	for _, p := range parts[:n] {
+		ok := false
+		switch p {
+		case 0:
+			ok = s.enumIter(ctx, want, limit)
+		case 1:
+			ok = s.enumRange(ctx, want, limit)
+		default:
+			ok = s.enumAll(ctx, want, limit)
+		}
+		if !ok {
+			return false
+		}
+	}
+	return true
+}
 
-	// Iter: full sequence, Value() asked twice, Next() after the end stays false
+// enumIter: full sequence, Value() asked twice, Next() after the end stays false.
+func (s *subject) enumIter(ctx string, want []uint, limit int) bool {
+	c := s.c
 	var got []uint
 	unstable := -1
 	afterEnd := false
+	s.observed("iter")
 	if !s.guard("Iter", func() {
 		next, value := s.newIter()
 		for next() {
@@ -641,11 +790,13 @@ func (s *subject) enumerate(ctx string) bool {
 		s.fail("iter-after-end", ctx, "Iter(): Next() returned true again after it had returned false (all %d members already delivered)", len(want))
 		return false
 	}
+	return true
+}
 
-	if s.k == kDsz {
-		return true
-	}
-	got = got[:0]
+func (s *subject) enumRange(ctx string, want []uint, limit int) bool {
+	c := s.c
+	var got []uint
+	s.observed("range")
 	if !s.guard("Range", func() {
 		fn := func(x uint) bool {
 			got = append(got, x)
@@ -665,29 +816,39 @@ func (s *subject) enumerate(ctx string) bool {
 		s.fail("range-sequence", ctx, "Range(): %s", d)
 		return false
 	}
-	if s.k != kBits {
-		return true
-	}
-	got = got[:0]
-	if !s.guard("All", func() {
-		for x := range s.sb.All() {
-			got = append(got, x)
-			if len(got) > limit {
-				break
+	return true
+}
+
+func (s *subject) enumAll(ctx string, want []uint, limit int) bool {
+	c := s.c
+	var got []uint
+	s.observed("all")
+	fresh := func() bool {
+		got = got[:0]
+		if !s.guard("All", func() {
+			for x := range s.sb.All() {
+				got = append(got, x)
+				if len(got) > limit {
+					break
+				}
 			}
+		}) {
+			return false
 		}
-	}) {
-		return false
-	}
-	c.Add("enumerations_all", 1)
-	if d := firstDiff(got, want); d != "" {
-		c.Logf("%s.All() -> %s", s.name, fmtSet(got))
-		s.fail("all-sequence", ctx, "All(): %s", d)
-		return false
+		c.Add("enumerations_all", 1)
+		if d := firstDiff(got, want); d != "" {
+			c.Logf("%s.All() -> %s", s.name, fmtSet(got))
+			s.fail("all-sequence", ctx, "All(): %s", d)
+			return false
+		}
+		return true
 	}
 	// an All() sequence obtained at an earlier enumeration, run now, twice: it must
 	// enumerate the members of now, both times
-	if s.keptAll != nil {
+	kept := func() bool {
+		if s.keptAll == nil {
+			return true
+		}
 		for pass := 0; pass < 2; pass++ {
 			got = got[:0]
 			if !s.guard("All", func() {
@@ -704,6 +865,15 @@ func (s *subject) enumerate(ctx string) bool {
 			}
 		}
 		c.Add("kept_all_sequences_rerun", 1)
+		return true
+	}
+	if s.shuffle && s.keptAll != nil && c.Rng.Bool() {
+		c.Add("kept_all_sequence_run_before_any_fresh_one", 1)
+		if !kept() || !fresh() {
+			return false
+		}
+	} else if !fresh() || !kept() {
+		return false
 	}
 	if s.keptAll == nil || c.Rng.Chance(1, 3) {
 		s.guard("All", func() { s.keptAll = s.sb.All() })
@@ -719,6 +889,7 @@ func (s *subject) deepEnumerate(ctx string) bool {
 	rng := c.Rng
 	want := s.list()
 	limit := len(want) + 3
+	s.observed("iter")
 	var g1, g2 []uint
 	if !s.guard("Iter", func() {
 		n1, v1 := s.newIter()
@@ -842,7 +1013,29 @@ func (s *subject) verify(ctx string) bool {
 	}
 	s.fresh = false
 	s.c.Logf("  verify %s: Len, Iter/Range/All sequences, Contains(0..%d) against %d members", s.name, s.hi+130, len(s.m))
-	return s.lenOK(ctx) && s.enumerate(ctx) && s.sweep(ctx)
+	if !s.shuffle {
+		return s.lenOK(ctx) && s.enumerate(ctx) && s.sweep(ctx)
+	}
+	order := [3]int{0, 1, 2}
+	for i := 2; i > 0; i-- {
+		j := s.c.Rng.Intn(i + 1)
+		order[i], order[j] = order[j], order[i]
+	}
+	for _, o := range order {
+		ok := false
+		switch o {
+		case 0:
+			ok = s.lenOK(ctx)
+		case 1:
+			ok = s.enumerate(ctx)
+		default:
+			ok = s.sweep(ctx)
+		}
+		if !ok {
+			return false
+		}
+	}
+	return true
 }
 
 // verifyLite is the check for objects that no operation was applied to since
@@ -949,9 +1142,12 @@ func (s *subject) bulk(op int, o *subject) bool {
 			n[x] = struct{}{}
 		}
 	}
+	newInCommon := false // a big, longer Merge operand brings new members into words the receiver already has
 	for x := range o.m {
 		if int(x>>6) >= sw {
 			tailO = true
+		} else if op == opMerge && ow >= 32 && !newInCommon && !s.has(x) {
+			newInCommon = true
 		}
 		if op == opMerge {
 			n[x] = struct{}{}
@@ -962,7 +1158,17 @@ func (s *subject) bulk(op int, o *subject) bool {
 		return false
 	}
 	s.muts++
+	s.unobs++
 	s.fresh = true
+	if op == opMerge {
+		s.estAtLeast(o.estWords)
+	}
+	if newInCommon && sw < ow {
+		c.Add("bulk_merge_longer_operand_of_32_or_more_words_adds_to_common_words", 1)
+	}
+	if sw >= 16 || ow >= 16 {
+		c.Add("bulk_"+opCtx[op]+"_with_16_or_more_words", 1)
+	}
 	self := s == o
 	s.setModel(n)
 	if o.hi > s.hi {
@@ -1044,7 +1250,8 @@ func (s *subject) clone(name string) *subject {
 	}) {
 		return nil
 	}
-	n := &subject{c: s.c, name: name, k: kBitmap, bm: &bm, m: copyModel(s.m), dirty: true, hi: s.hi, q: s.q}
+	n := &subject{c: s.c, name: name, k: kBitmap, bm: &bm, m: copyModel(s.m), dirty: true, hi: s.hi, q: s.q,
+		shuffle: s.shuffle, sparse: s.sparse, estWords: s.estWords}
 	s.c.Logf("%s := %s.Clone() (%d members)", name, s.name, len(s.m))
 	s.c.Add("clones", 1)
 	if len(s.m) > 0 {
